@@ -18,25 +18,27 @@ VARIABLES l, regce, nloops
 tvars == <<vars, l, regce, nloops>>
 
 Bind(e) ==
-  /\ subs' = e.st.subs /\ reg' = e.st.reg /\ obs' = e.obs
+  /\ subs' = e.st.subs /\ reg' = e.st.reg /\ obs' = e.obs /\ ldr' = e.st.ldr
   /\ regce' = e.st.regce /\ nloops' = e.st.nloops
 
 TraceInit ==
   LET e == Trace[1] IN
-  /\ subs = e.st.subs /\ reg = e.st.reg /\ obs = e.obs
+  /\ subs = e.st.subs /\ reg = e.st.reg /\ obs = e.obs /\ ldr = e.st.ldr
   /\ regce = e.st.regce /\ nloops = e.st.nloops
   /\ l = 2
 
 Fail(kind, e, name) == PrintT(<<"FAIL", kind, e.t, l, e.a, name>>)
 Chk(ok, kind, e, name) == IF ok THEN TRUE ELSE Fail(kind, e, name)
 
-Same == subs' = subs /\ reg' = reg
+Same == subs' = subs /\ reg' = reg /\ ldr' = ldr
 
 PropOf(e) ==
   CASE e.a = "Subscribe" -> P_Subscribe(e.args.q)
     [] e.a = "Burst" -> P_Burst(e.args.g, e.args.cs, e.args.e)
     [] e.a = "Cancel" -> P_Cancel(e.args.s)
     [] e.a = "LoopExit" -> P_LoopExit(e.args.s)
+    [] e.a = "Race" -> P_Race(e.args.s, e.args.q)
+    [] e.a = "Elect" -> P_Elect
     [] OTHER -> Same
 
 ImplOf(e) ==
@@ -44,6 +46,8 @@ ImplOf(e) ==
     [] e.a = "Burst" -> DoBurst(e.args.g, e.args.cs, e.args.e)
     [] e.a = "Cancel" -> DoCancelByClient(e.args.s)
     [] e.a = "LoopExit" -> DoLoopExit(e.args.s)
+    [] e.a = "Race" -> DoRace(e.args.s, e.args.q)
+    [] e.a = "Elect" -> DoElect
     [] OTHER -> Same
 
 \* the registered entry carries the ids of the subscription it points to
